@@ -385,6 +385,18 @@ def check_pollstate(ctx, M, rule):
 # Indexer rotation
 # ------------------------------------------------------------------------------------------------
 
+def _field_written_outside_ctor(M, adt_simple, fld):
+    for x in M.F.bodies:
+        for blk in x.j["blocks"]:
+            for st in blk["stmts"]:
+                if st["k"] != "assign":
+                    continue
+                for pe in st["lhs"]["p"]:
+                    if isinstance(pe, dict) and pe.get("name") == fld and str(pe.get("adt") or "").endswith("::" + adt_simple):
+                        return True
+    return False
+
+
 def check_indexer(ctx, M, rule):
     b = find_method(M, "indexer::Indexer", "new")
     ctx.require(b is not None, "Indexer::new")
@@ -403,6 +415,7 @@ def check_indexer(ctx, M, rule):
     pss = summaries(ctx, M, b, rule)
     ok = bool(pss)
     probs = []
+    end_alias = None       # fields of IndexIter that every constructor sets to the very value it uses as the range's end
     for ps in pss:
         r = ps.ret
         good = r[0] == "agg" and r[1] == ("IndexIter", "IndexIter")
@@ -410,6 +423,9 @@ def check_indexer(ctx, M, rule):
             f = fields_of(M, b, "IndexIter", r)
             rng = f.get("iter")
             good = rng is not None and rng[0] == "agg" and rng[1] == ("Range", "Range") and rng[2] == (("const", 0), sfield("max"))
+            if good:
+                al = {k for k, v in f.items() if k != "iter" and v == rng[2][1]}
+                end_alias = al if end_alias is None else (end_alias & al)
             # offset handed to the iterator is the *old* offset
             good = good and f.get("offset") == sfield("offset")
         if not good:
@@ -454,7 +470,12 @@ def check_indexer(ctx, M, rule):
         if good and r[2][1][0] == "agg" and r[2][1][1][0] == "closure":
             clos = r[2][1][1][1]
             caps = r[2][1][2]
-            good = ("field", sfield("iter"), "end") in caps and sfield("offset") in caps
+            ends = {("field", sfield("iter"), "end")}
+            for fld in (end_alias or ()):
+                # a cached copy of the length: set by the (only) constructor to the range's end and never written again
+                if not _field_written_outside_ctor(M, "IndexIter", fld):
+                    ends.add(sfield(fld))
+            good = any(e in caps for e in ends) and sfield("offset") in caps
         else:
             good = False
         ok = ok and good
